@@ -26,6 +26,9 @@ class Hist:
         if rng.chance(1, 5):
             # document ids at the boundaries of the integer types a backend may store them in (SQLite: i64)
             self.ids = rng.shuffle([1, 2 ** 63 - 1, 2 ** 63, 2 ** 64 - 1, 2 ** 32])[:rng.range(2, 4)]
+        elif rng.chance(1, 5):
+            # ids whose order as bytes (LMDB keys are little endian, compared bytewise) differs from their order as numbers
+            self.ids = rng.shuffle([1, 45, 255, 256, 300, 65536, 2 ** 24 + 1])[:rng.range(2, 4)]
         self.origins = rng.shuffle([1, 2, 3, 9])[:rng.range(1, 3)]
         self.t = (0 if rng.chance(1, 6) else T0) + rng.below(10 ** 5) * 4   # one history in six starts at the datacake epoch (D17)
         self.allow_dups = allow_dups
